@@ -190,8 +190,11 @@ fn nan_propagation<C: Context>(h: &H, idx: u64, ctx: &C, op: OpHandle, d: D, def
             let mut set = vec![Coor4D(*x), Coor4D(p)];
             let cs = apply_set(ctx, op, d, &mut set);
             h.eval(1);
-            let same = (0..4).all(|k| canon(set[1][k]) == canon(q[k]));
-            if !same || cs != 1 + cq {
+            let mut rev = vec![Coor4D(p), Coor4D(*x)];
+            let cr = apply_set(ctx, op, d, &mut rev);
+            h.eval(1);
+            let same = (0..4).all(|k| canon(set[1][k]) == canon(q[k]) && canon(rev[0][k]) == canon(q[k]) && canon(rev[1][k]) == canon(y[k]));
+            if !same || cs != 1 + cq || cr != 1 + cq {
                 v(
                     h,
                     idx,
@@ -350,6 +353,47 @@ fn declared_failures(h: &H, idx: u64, ctx: &Minimal, op: OpHandle, inst: &Inst, 
             let x0 = if name == "utm" { 500000.0 } else { super::c05::param(&inst.def, "x_0").unwrap_or(0.0) };
             let y = [x0 + 3.0 * sz * if rng.chance(0.5) { 1.0 } else { -1.0 }, 0.0, 0.0, 0.0];
             must_fail(D::I, y, "beyond-the-strip-inverse");
+            // the strip is symmetric about the central meridian: whatever happens to a point east
+            // of it (transformed and counted, or refused) happens to its mirror image in the west,
+            // forward (in longitude) and inverse (in the easting reduced by x_0)
+            let lon0 = if name == "utm" { (6.0 * super::c05::param(&inst.def, "zone").unwrap_or(31.0) - 183.0) * D2R } else { lon0 };
+            for _ in 0..4 {
+                let dl = rng.range(60.0, 110.0) * D2R;
+                let lat = rng.range(-70.0, 70.0) * D2R;
+                let (e, ce) = apply1(ctx, op, D::F, [lon0 + dl, lat, 0.0, 0.0]);
+                let (w, cw) = apply1(ctx, op, D::F, [lon0 - dl, lat, 0.0, 0.0]);
+                h.eval(2);
+                h.class(&format!("strip-symmetry/{name}/fwd"));
+                let mirrored = ce == cw && (ce == 0 || (((e[0] - x0) + (w[0] - x0)).abs() <= 1e-6 * sz && (e[1] - w[1]).abs() <= 1e-6 * sz));
+                if !mirrored {
+                    v(
+                        h,
+                        idx,
+                        &format!("declared-failure-not-flagged/{name}/strip-not-symmetric/fwd"),
+                        J::obj().set("definition", &inst.def).set("dlon_deg", dl / D2R).set("lat_deg", lat / D2R).set("east", J::bits(&e)).set("west", J::bits(&w)).set("counts_east_west", J::coords(&[ce as f64, cw as f64])),
+                    );
+                    return;
+                }
+                let dx = rng.range(2.0, 2.9) * sz * inst_k0(inst);
+                let ny = rng.range(-0.5, 0.5) * sz;
+                let y0 = super::c05::param(&inst.def, "y_0").unwrap_or(if inst.def.contains("south") { 1.0e7 } else { 0.0 });
+                let (ei, cei) = apply1(ctx, op, D::I, [x0 + dx, y0 + ny, 0.0, 0.0]);
+                let (wi, cwi) = apply1(ctx, op, D::I, [x0 - dx, y0 + ny, 0.0, 0.0]);
+                h.eval(2);
+                h.class(&format!("strip-symmetry/{name}/inv"));
+                // (longitudes come back normalised: the mirror image holds modulo a full turn)
+                let sum = ((ei[0] - lon0) + (wi[0] - lon0) + std::f64::consts::PI).rem_euclid(2.0 * std::f64::consts::PI) - std::f64::consts::PI;
+                let mirrored = cei == cwi && (cei == 0 || (sum.abs() <= 1e-9 && (ei[1] - wi[1]).abs() <= 1e-9));
+                if !mirrored {
+                    v(
+                        h,
+                        idx,
+                        &format!("declared-failure-not-flagged/{name}/strip-not-symmetric/inv"),
+                        J::obj().set("definition", &inst.def).set("easting_offset", dx).set("east", J::bits(&ei)).set("west", J::bits(&wi)).set("counts_east_west", J::coords(&[cei as f64, cwi as f64])),
+                    );
+                    return;
+                }
+            }
         }
         "laea" => {
             let x0 = super::c05::param(&inst.def, "x_0").unwrap_or(0.0);
@@ -367,6 +411,10 @@ fn declared_failures(h: &H, idx: u64, ctx: &Minimal, op: OpHandle, inst: &Inst, 
         }
         _ => {}
     }
+}
+
+fn inst_k0(inst: &Inst) -> f64 {
+    super::c05::param(&inst.def, "k_0").unwrap_or(if inst.name == "utm" { 0.9996 } else { 1.0 })
 }
 
 fn grid_op(h: &H, idx: u64, def: &str, kind: &str, touches: &[bool; 4], rng: &mut Rng) {
